@@ -5,7 +5,7 @@
    sources. It does not say that rustc accepts the crates; that part is the `cargo check` correspondence of ./check C35.
    A selection is what a downstream crate writes in [dependencies]: any list of requests (workspace library crate,
    default-features flag, any subset of its features). The theorems quantify over ALL such selections (no bound on
-   their length); the finite part is the generated graph (8 crates, 42 features, 5 rules on the pinned tree). *)
+   their length); the finite part is the generated graph (8 crates, 5 rules on the pinned tree). *)
 From Coq Require Import List Bool.
 Import ListNotations.
 From ZV Require Import Base.Bytes C35.Types C35.Unify C35.Generated C35.Spec C35.Proofs.
